@@ -137,7 +137,11 @@ func zzDecode(d *json.Decoder, v interface{}) error {
 	}
 	return nil
 }
-func zzReadAll(r io.Reader) ([]byte, error) { return nil, nil }
+// the body of an error answer is whatever the replica wrote into it: it may echo names and
+// phrases ("already exists", "not found") that mean nothing about what the replica did
+func zzReadAll(r io.Reader) ([]byte, error) {
+	return []byte(zzConcStr(zzPick("error.body", "", "Snapshot volume-snap-s1.img already exists", "{\"type\":\"error\",\"status\":500}", "not found"))), nil
+}
 
 func zzRemote() *Remote {
 	return &Remote{Name: "tcp://h1:9502", replicaURL: "http://h1:9502/v1/replicas/1", httpClient: &http.Client{Timeout: timeout}}
